@@ -82,12 +82,15 @@ FileLoop:
 						continue FileLoop
 					}
 					renamed = fmt.Sprintf("%s_%d%s", pth, cnt, ext)
-					if cnt > fm.count[name] {
+					// probe every name that is taken, whether by an earlier
+					// rename or by a file that was submitted under that very
+					// name, so that the name finally chosen is unique
+					next, taken := fm.index[renamed]
+					if !taken {
 						break
-					} else {
-						idx = fm.index[renamed]
-						cnt++
 					}
+					idx = next
+					cnt++
 				}
 
 				fm.log.Warn(fmt.Sprintf("[%s] file names conflict: '%s' (%d <> %d)", src, name, len(fm.files[fst].Content), len(f.Content)))
